@@ -305,7 +305,7 @@ _names = ['a', 'b', 'c', 'd', 'e']
 
 @st.composite
 def program_recipes(draw, max_funcs=4, max_stmts=6, allow_threads=True, allow_gens=True, allow_raise=True,
-                    allow_methods=True, n_values=0, two_files=True, max_depth=2):
+                    allow_methods=True, n_values=0, two_files=True, max_depth=2, hold_bias=1):
     nfiles = draw(st.integers(1, 2)) if two_files else 1
     same_base = nfiles == 2 and draw(st.booleans())
     if nfiles == 1:
@@ -378,7 +378,7 @@ def program_recipes(draw, max_funcs=4, max_stmts=6, allow_threads=True, allow_ge
             if fn['nparams'] >= 1 and depth == 0 and fn['kind'] == 'func' and fi != 0:
                 opts += ['rec']
             if n_values:
-                opts += ['hold']
+                opts += ['hold'] * hold_bias
             if allow_threads and callees and depth == 0 and fi == 0:
                 opts += ['spawn']
             opts += ['tick']
@@ -525,3 +525,37 @@ def scope_table(recipe, rendered):
 
 def _is_int_expr(expr):
     return not (expr.startswith(("'", '"', '[', '{', '(')))
+
+
+@st.composite
+def chain_programs(draw, n_values=6, max_depth=5):
+    """f0 -> f1 -> ... -> fk (plain functions and methods, possibly in two files); every function holds generated
+    values and simple locals before calling the next; returns (recipe, sid of a statement in the deepest function)."""
+    depth = draw(st.integers(1, max_depth))
+    two = draw(st.booleans())
+    files = [{'path': '/app/pkg/mod_a.py', 'src': True}]
+    if two:
+        files.append({'path': draw(st.sampled_from(['/app/lib/mod_b.py', '/app/other/mod_a.py'])), 'src': True})
+    funcs = []
+    sid = 0
+    target = 0
+    for i in range(depth + 1):
+        kind = 'func' if i == 0 else draw(st.sampled_from(['func', 'method', 'func']))
+        body = []
+        nh = draw(st.integers(0, 3))
+        for j in range(nh):
+            body.append(['hold', draw(st.sampled_from(['h1', 'h2', 'h3'])), draw(st.integers(0, n_values - 1))])
+        for j in range(draw(st.integers(0, 2))):
+            body.append(['set', draw(st.sampled_from(_names)),
+                         draw(st.sampled_from(["[n, 'x']", "{'k': n}", 'n + 1', "'txt'", "(n, [n])"]))])
+        if i < depth:
+            body.append(['call', 'r1', i + 1, ['1']])
+            body.append(['ret', 'r1'])
+        else:
+            body.append(['mark', 'n'])
+            target = sid + len(body) - 1
+            body.append(['ret', 'n + 1'])
+        sid += len(body)
+        funcs.append({'name': 'f%d' % i, 'file': draw(st.integers(0, len(files) - 1)) if i else 0, 'kind': kind,
+                      'nparams': 1, 'body': body})
+    return {'files': files, 'funcs': funcs}, target
